@@ -33,6 +33,7 @@ class ParserState:
     __slots__ = (
         "_pos_history",
         "_suppress_failures",
+        "_tag_history",
         "atomic_depth",
         "furthest_expected",
         "furthest_pos",
@@ -72,6 +73,7 @@ class ParserState:
         self.hide_pairs = False
         self.rule_stack = Stack[Rule | RuleFrame]()  # RuleFrame is for generated code.
         self.tag_stack: list[str] = []  # User tags are always enabled
+        self._tag_history: list[tuple[str, ...]] = []
         self.user_stack = Stack[str]()  # PUSH/POP/PEEK/DROP
 
     def parse_trivia(self, pairs: list[Pair]) -> bool:
@@ -138,6 +140,8 @@ class ParserState:
         self.rule_stack.snapshot()
         self.atomic_depth.snapshot()
         self._pos_history.append(self.pos)
+        # A rule takes the pending tag for its pair: an abandoned attempt gives it back.
+        self._tag_history.append(tuple(self.tag_stack))
 
     def ok(self) -> None:
         """Commit to the current state after a successful parse.
@@ -149,6 +153,7 @@ class ParserState:
         self.rule_stack.drop_snapshot()
         self.atomic_depth.drop()
         self._pos_history.pop()
+        self._tag_history.pop()
 
     def restore(self) -> None:
         """Restore the state to the most recent checkpoint.
@@ -160,6 +165,7 @@ class ParserState:
         self.rule_stack.restore()
         self.atomic_depth.restore()
         self.pos = self._pos_history.pop()
+        self.tag_stack[:] = self._tag_history.pop()
 
     def push(self, value: str) -> None:
         """Push a value onto the user stack.
